@@ -12,6 +12,7 @@ import (
 	"strings"
 	"sync"
 	"sync/atomic"
+	"syscall"
 	"time"
 
 	"verif/harness/core"
@@ -68,6 +69,7 @@ func worker(args []string) int {
 var (
 	curIdx   atomic.Int64
 	curStart atomic.Int64 // unix nano, 0 = idle
+	curCPU   atomic.Int64 // process CPU milliseconds at the start of the input
 	wdOnce   sync.Once
 )
 
@@ -79,11 +81,22 @@ func startWatchdog(logf *os.File) {
 			if st != 0 && time.Since(time.Unix(0, st)) > hangLimit {
 				buf := make([]byte, 1<<22)
 				n := runtime.Stack(buf, true)
-				fmt.Fprintf(logf, "H %d\n%s\nENDH\n", curIdx.Load(), buf[:n])
+				// CPU seconds this process burned on the current input: a
+				// loaded machine cannot fake those
+				cpu := cpuSeconds() - float64(curCPU.Load())/1000
+				fmt.Fprintf(logf, "H %d cpu=%.1f\n%s\nENDH\n", curIdx.Load(), cpu, buf[:n])
 				os.Exit(3)
 			}
 		}
 	}()
+}
+
+func cpuSeconds() float64 {
+	var ru syscall.Rusage
+	if syscall.Getrusage(syscall.RUSAGE_SELF, &ru) != nil {
+		return 0
+	}
+	return float64(ru.Utime.Sec+ru.Stime.Sec) + float64(ru.Utime.Usec+ru.Stime.Usec)/1e6
 }
 
 func execLogged(logf *os.File, idx int, in *Input) {
@@ -91,6 +104,7 @@ func execLogged(logf *os.File, idx int, in *Input) {
 	tmp := filepath.Dir(logf.Name())
 	fmt.Fprintf(logf, "B %d\n", idx)
 	curIdx.Store(int64(idx))
+	curCPU.Store(int64(cpuSeconds() * 1000))
 	curStart.Store(time.Now().UnixNano())
 	o := Exec(in, filepath.Join(tmp, fmt.Sprintf("w%d", os.Getpid())))
 	curStart.Store(0)
@@ -224,8 +238,14 @@ func runChunk(r *core.Run, c chunk, corpusPath, work, tag string) []finding {
 		switch {
 		case res.ExitCode == 3:
 			dump := hangDump(logPath)
+			var cpu float64
+			fmt.Sscanf(dump[strings.Index(dump, "cpu=")+4:], "%f", &cpu)
 			if blocked(dump) {
 				f.kind, f.sig, f.what, f.stack = "hang", "hang:"+TopLibFrame(dump), "call still blocked after 60 s", trunc(dump, 6000)
+				out = append(out, f)
+			} else if cpu >= 30 && strings.Contains(dump, libPath) {
+				// not blocked but spinning: 30+ CPU-seconds on one small input
+				f.kind, f.sig, f.what, f.stack = "hang", "spin:"+TopLibFrame(dump), fmt.Sprintf("call still running after 60 s and %.0f CPU-seconds inside the library", cpu), trunc(dump, 6000)
 				out = append(out, f)
 			} else {
 				r.Inconclusive(fmt.Sprintf("input %s#%d ran longer than 60 s on a runnable goroutine", c.part, culprit))
